@@ -23,7 +23,8 @@ def worker(job):
             # Met-removed twin and the length limits
             gen_ref.make_reference(case, seed, rng.choice([1, 2, 3]),
                                    sec_near_start=rng.choice([0.0, 0.6, 1.0]),
-                                   sec_lys=rng.choice([0.0, 0.0, 0.7]))
+                                   sec_lys=rng.choice([0.0, 0.0, 0.7]),
+                                   widen_genes=rng.choice([0.0, 0.7, 1.0]))
             genome, anno, proteome = gen_ref.load_reference(case)
         kw = dict(cleavage_rule='trypsin', cleavage_exception=rng.choice([None, None, 'auto']),
                   miscleavage=rng.choice([0, 1, 2, 2, 3]), min_mw=rng.choice([300., 500., 800.]),
@@ -106,6 +107,23 @@ def worker(job):
         out.update(lines=lines, lines_b=lines_b, txs=txs, real=sorted(fasta.keys()))
         out['stats']['runs'] = 1
         out['stats']['real_peptides'] = len(fasta)
+        # the SECT ids a header may name: SECT-<1-based GENE coordinate of the first base (transcript
+        # order) of an annotated Sec codon>, from the exon table alone
+        sect_ok = {}
+        for t_id, m_ in anno.transcripts.items():
+            gm_ = anno.genes[m_.transcript.gene_id]
+            strand_ = m_.transcript.strand
+            exs_ = sorted((int(e.location.start), int(e.location.end)) for e in m_.exon)
+            if strand_ == -1:
+                exs_ = exs_[::-1]
+            ids_ = set()
+            for sf in m_.selenocysteine:
+                g0 = int(sf.location.start) if strand_ == 1 else int(sf.location.end) - 1
+                gene_pos = g0 - int(gm_.location.start) if strand_ == 1 else int(gm_.location.end) - 1 - g0
+                ids_.add(f'SECT-{gene_pos + 1}')
+            sect_ok[t_id] = ids_
+        if case.meta.get('widened_genes'):
+            out['stats']['references_with_gene_wider_than_transcript'] = 1
         # headers must name the SECT / W2F events
         for pseq, hdrs in fasta.items():
             for h in hdrs:
@@ -115,6 +133,11 @@ def worker(job):
                     if not ev or parts[0] not in txs:
                         out['violations'].append((f'header entry {e} of {pseq} names no SECT/W2F event '
                                                   'of a coding transcript', desc))
+                    for x in ev:
+                        if x.startswith('SECT') and parts[0] in sect_ok and x not in sect_ok[parts[0]]:
+                            out['violations'].append((
+                                f'entry {e} names {x}, which is not the gene coordinate of an annotated '
+                                f'selenocysteine codon of {parts[0]} (annotated: {sorted(sect_ok[parts[0]])})', desc))
                     if any(x.startswith('SECT') for x in ev) and not flags[0]:
                         out['violations'].append((f'entry {e} names a SECT event although '
                                                   '--selenocysteine-termination is off', desc))
